@@ -133,12 +133,15 @@ claim('C03',
       'before a reversal are '
       'FLOOR(|C(T)|/2^31) with the accumulator polynomial of D3; D12 a computing path that hands '
       'back a constant (fallback) duration is not taken by any move of a witness grid (path '
-      'conditions evaluated with exact / 40-digit square roots); one family is a recorded known '
-      'finding (K1: accumulator exactly on a threshold at the reversal tick -> duration 0); D13 on a '
+      'conditions evaluated with exact / 40-digit square roots) - this rule found the duration-0 '
+      'family K1; D13 on a '
       'grid of reversing moves (explicit start accumulators included) the reported position follows '
-      'from the steps made before the reversal. NOT decided: minimality of the '
-      'chosen root and the accumulator range when the accumulator lands exactly on a step '
-      'boundary (measure-zero coincidences; DESIGN.md 4.3).',
+      'from the steps made before the reversal; D14 on a grid of reversing moves whose '
+      'accumulator polynomial comes back to a step boundary exactly at an integer tick (cleared '
+      'accumulators: systematically at tick -2*rate_eff/accel) the triple reported by the path '
+      'taken equals the one the recurrence gives (this rule found the one-tick-early family; it '
+      'and K1 were one defect, F17, fixed in /repo 7327e0e). NOT decided: minimality of the '
+      'chosen root in general (only on the grids of D12-D14; DESIGN.md 4.3).',
       'Trusted: as C01. The claim is deliberately limited; see DESIGN.md 3/C03 and 5.',
       'DESIGN.md section 3, C03')
 
@@ -497,9 +500,9 @@ def build():
         'not_applicable': na,
         'notes': 'Static analysis only: no repo code is imported or executed by any check; exit 0 '
                  '= all obligations discharged, exit 1 = VIOLATION lines, exit 2 = ANALYSIS-ERROR '
-                 '(cannot conclude; never a violation). Tiers: quick = all rules; thorough = deeper domains plus a mutation-adequacy audit recorded in the evidence (DESIGN.md 8.8). Sixteen genuine defects found by the rules '
-                 'were repaired by fix: commits in /repo (F1-F16); one is recorded rather than '
-                 'repaired (K1, C03: a KNOWN-FINDING line, exit 0). All are listed in '
+                 '(cannot conclude; never a violation). Tiers: quick = all rules; thorough = deeper domains plus a mutation-adequacy audit recorded in the evidence (DESIGN.md 8.8). Seventeen genuine defects found by the rules '
+                 'were repaired by fix: commits in /repo (F1-F17; the former known finding K1 is part of F17); '
+                 'none is left recorded rather than repaired. All are listed in '
                  '/verif/known_findings.json (DESIGN.md 4.1, 8.2).',
     }
     with open(os.path.join(VERIF, 'MANIFEST.json'), 'w') as fh:
